@@ -47,6 +47,56 @@ class Conn:
         return f"<Conn {self.name}>"
 
 
+class SerialLikeConn(Conn):
+    """What pyserial's ReaderThread + Serial look like to the transport (H12): write() and close() are serialised by the
+    reader thread's lock, a write has an inside (the port takes the data in two steps), and cancel_write() - which takes
+    no lock - makes a write in progress return short, as pyserial's does."""
+
+    def __init__(self, log, name):
+        super().__init__(log, name)
+        self._lock = S.CoopLock(f"reader-lock-{name}")
+        self.in_write = False
+        self.cancelled = False
+
+    def write(self, data):
+        sched = S.ACTIVE
+        self._lock.acquire()
+        try:
+            if not self.open:
+                self.log.append(("write-on-closed", self.name, bytes(data)))
+                raise OSError(f"write on closed connection {self.name}")
+            data = bytes(data)
+            half = len(data) // 2
+            self.cancelled = False
+            self.in_write = True
+            if sched is not None:
+                sched.point(("port.write-mid", self.name))
+            self.in_write = False
+            if self.cancelled:
+                self.log.append(("sendall-cut-off", self.name, data[:half]))
+                return half
+            self.log.append(("write", self.name, data))
+            return len(data)
+        finally:
+            self._lock.release()
+
+    def cancel_write(self):
+        sched = S.ACTIVE
+        if sched is not None:
+            sched.point(("port.cancel_write", self.name))
+        if self.in_write:
+            self.cancelled = True
+        self.log.append(("cancel_write", self.name))
+
+    def close(self):
+        self._lock.acquire()
+        try:
+            self.open = False
+            self.log.append(("close", self.name))
+        finally:
+            self._lock.release()
+
+
 def make_gateway(log, connect_ok=True):
     from mysensors.gateway_serial import SerialGateway
 
@@ -217,6 +267,36 @@ def h_pump_vs_stop(sched):
     sched.block(lambda: all(not t.alive for t in sched.threads[1:]), ("join-rest",))
 
 
+def h_serial_write_vs_disconnect(sched):
+    """H12: the pump writes a command to a serial-like link (reader-thread lock, two-step write) while the application
+    thread calls disconnect(). Closing waits for the write in progress: the command reaches the port whole or not at
+    all, and nothing escapes into the pump."""
+    log = sched.log
+    gw, transport, _ = make_gateway(log)
+    link = SerialLikeConn(log, "s0")
+    transport.protocol.transport = link
+    tasks = gw.tasks
+    tasks.add_job(str, CMD)
+
+    def pump():
+        try:
+            reply = tasks.run_job()
+            transport.send(reply)
+        except Exception as exc:  # pylint: disable=broad-except
+            log.append(("pump-raised", type(exc).__name__, str(exc)[:120], S._site(exc)))
+
+    def app():
+        try:
+            transport.disconnect()
+        except Exception as exc:  # pylint: disable=broad-except
+            log.append(("event-raised", type(exc).__name__, str(exc)[:120], S._site(exc)))
+
+    tp = sched.spawn(pump, "pump")
+    t2 = sched.spawn(app, "event")
+    sched.block(lambda: not tp.alive and not t2.alive, ("join",))
+    sched.block(lambda: all(not t.alive for t in sched.threads[1:]), ("join-rest",), timeout=200.0)
+
+
 def h_two_sends_first_fails(sched):
     """H7: the first write fails (send closes the link and asks for a reconnect); the reader thread then
     reports the loss without error; a second command follows. A command must never be written to a
@@ -333,6 +413,7 @@ HARNESSES = {
     "H9-tcp-send-buffer-full": lambda sched: h_tcp_write_vs_disconnect(sched, partial=True),
     "H10-pump-vs-lost-error": h_pump_vs_lost,
     "H11-pump-vs-stop": h_pump_vs_stop,
+    "H12-serial-write-vs-disconnect": h_serial_write_vs_disconnect,
 }
 
 
@@ -471,7 +552,7 @@ def _merge(dst, src):
             dst["found"][sig] = val
 
 
-BOUNDS = {"quick": {"default": 2, "H5-producers-vs-pump": 1, "H8-tcp-write-vs-disconnect": 2, "H9-tcp-send-buffer-full": 1, "H10-pump-vs-lost-error": 1, "H11-pump-vs-stop": 1}, "thorough": {"default": 3, "H5-producers-vs-pump": 2, "H8-tcp-write-vs-disconnect": 3, "H9-tcp-send-buffer-full": 2, "H10-pump-vs-lost-error": 2, "H11-pump-vs-stop": 2}}
+BOUNDS = {"quick": {"default": 2, "H5-producers-vs-pump": 1, "H8-tcp-write-vs-disconnect": 2, "H9-tcp-send-buffer-full": 1, "H10-pump-vs-lost-error": 1, "H11-pump-vs-stop": 1, "H12-serial-write-vs-disconnect": 2}, "thorough": {"default": 3, "H5-producers-vs-pump": 2, "H8-tcp-write-vs-disconnect": 3, "H9-tcp-send-buffer-full": 2, "H10-pump-vs-lost-error": 2, "H11-pump-vs-stop": 2, "H12-serial-write-vs-disconnect": 2}}
 
 
 def run(tier):
